@@ -282,6 +282,10 @@ class FS:
                 if i == len(parts) and not exist_ok:
                     raise FileExistsError(errno.EEXIST, "File exists", d)
                 continue
+            par = posixpath.dirname(d)
+            if par and par != "/" and not self.b.isdir(par):
+                # the parent was removed (by another thread) after it was seen to exist
+                raise FileNotFoundError(errno.ENOENT, "No such file or directory", d)
             self.b.mkdir1(d)
 
     def _need_parent(self, path):
